@@ -194,18 +194,18 @@ def pretty(o):
     return "the overlap %s-%s" % (fmt(o[1]), fmt(o[2]))
 
 
-def agreement(rep, F):
-    rep.rule("R11.4", "Intersects<Line> for Line is true exactly when the segments share a point (hence agrees with line_intersection(..).is_some())")
+def agreement(rep, F, rule="R11.4"):
+    rep.rule(rule, "Intersects<Line> for Line is true exactly when the segments share a point (hence agrees with line_intersection(..).is_some())")
     try:
         fn = F.impl_method("geo::algorithm::intersects::Intersects", r"line::Line<T>$", r"line::Line<T>$", "intersects", crates=("geo",))
     except KeyError as e:
-        rep.bad("R11.4", "anchor", str(e))
+        rep.bad(rule, "anchor", str(e))
         return
     ex = Symex(F, no_inline=HELPERS, max_paths=60000, budget_s=60)
     try:
         paths = [p for p in ex.run(fn) if p.kind == "ret"]
     except Unanalysable as e:
-        rep.bad("R11.4", "unanalysable", str(e), where=fn.loc())
+        rep.bad(rule, "unanalysable", str(e), where=fn.loc())
         return
     tree = Tree(paths)
     segs = [{"start": a, "end": b} for a, b in itertools.product(G3, repeat=2)]
@@ -215,18 +215,18 @@ def agreement(rep, F):
         try:
             hit = tree.select(ev)
             if len(hit) != 1:
-                rep.bad("R11.4", "table", "segments %s %s select %d rows" % (fmt(p_), fmt(q_), len(hit)), where=fn.loc())
+                rep.bad(rule, "table", "segments %s %s select %d rows" % (fmt(p_), fmt(q_), len(hit)), where=fn.loc())
                 return
             got = bool(ev.ev(hit[0].ret))
         except NoModel as e:
-            rep.bad("R11.4", "non-abstractable", str(e), where=fn.loc())
+            rep.bad(rule, "non-abstractable", str(e), where=fn.loc())
             return
         want = reference(p_, q_) is not None
         n += 1
         if got != want:
-            rep.bad("R11.4", "Line∩Line", "for %s and %s intersects() is %s but the segments %s [row: %s]" % (fmt(p_), fmt(q_), got, "share a point" if want else "are disjoint", show_pc(hit[0].pc)[:260]), where=fn.loc())
+            rep.bad(rule, "Line∩Line", "for %s and %s intersects() is %s but the segments %s [row: %s]" % (fmt(p_), fmt(q_), got, "share a point" if want else "are disjoint", show_pc(hit[0].pc)[:260]), where=fn.loc())
             return
-    rep.ok("R11.4", "Line∩Line[%d ordered pairs, %d rows]" % (n, len(paths)))
+    rep.ok(rule, "Line∩Line[%d ordered pairs, %d rows]" % (n, len(paths)))
 
 
 def proper_point(rep, F):
